@@ -18,4 +18,21 @@ theorem forwardThetaSrc_eq (p : Params R) (q : J6 R) : Src.forwardThetaSrc p q =
 theorem thetaCandidatesSrc_eq (p : Params R) (pose : Iso R) :
     Src.thetaCandidatesSrc p pose = thetaCandidates p pose := rfl
 
+/-- the sign/offset map written a second time in `forward_with_joint_poses` = `thetaOf` -/
+theorem thetaOfChainSrc_eq (p : Params R) (j : J6 R) : Src.thetaOfChainSrc p j = thetaOf p j := rfl
+
+/-- the six link poses of `forward_with_joint_poses` = `chain` -/
+theorem chainSrc_eq (p : Params R) (j : J6 R) : Src.chainThetaSrc p (Src.thetaOfChainSrc p j) = chain p j := rfl
+
+/-- the eight raw θ1..θ5 vectors of `inverse_intern_5_dof` (the hand-duplicated copy) are those of `inverse_intern` -/
+theorem thetaCandidates5Src_eq (p : Params R) (pose : Iso R) :
+    Src.thetaCandidates5Src p pose = (thetaCandidates p pose).map (fun t => { t with j6 := 0 }) := rfl
+
+/-- `inverse_intern_5_dof` of the model, written with the table translated from the source -/
+theorem inverseIntern5_eq_src (p : Params R) (pose : Iso R) (j6 : R) :
+    inverseIntern5 p pose j6 =
+      (Src.thetaCandidates5Src p pose).filterMap (fun t => finishCandidate5 p pose j6 (jointsOf p t)) := by
+  rw [thetaCandidates5Src_eq, List.filterMap_map]
+  rfl
+
 end Opw
